@@ -218,7 +218,7 @@ def t_spl_transfers(world):
             if ob.witness(eng, r, [okc]) is False: continue
             Ev = [e for e in flat_events(r['events']) if e[0] == 'call']
             t22 = [e for e in Ev if re.search(r'invoke_transfer_checked$', e[1])]; tcl = [e for e in Ev if re.search(r'(^|::)transfer$', e[1]) and 'invoke' not in e[1]]
-            if len(t22) + len(tcl) != 1: ob.structural(f'{len(t22)} Token-2022 + {len(tcl)} classic transfers on an accepting path', 'transfer-count'); continue
+            if len(t22) + len(tcl) != 1: ob.shape(len(t22) + len(tcl), 1, f'{len(t22)} Token-2022 + {len(tcl)} classic transfers on an accepting path', 'transfer-count'); continue
             if t22:
                 e = t22[0]; amt = e[2][6].e; route = (nm(e[2][1]), nm(e[2][3]), nm(e[2][4]))
             else:
